@@ -176,20 +176,20 @@ Section Honest2.
     (2 * length chunks + match plain st with Some _ => 1 | None => 0 end + 1)%nat.
 
   Lemma conn_read_honest : forall fuel st bsize evs chunks,
-    small chunks -> no_eof evs -> (0 < bsize)%nat ->
+    small chunks -> no_eof evs -> (0 < bsize)%nat -> closed st = false ->
     received st ++ datas evs = wire (rctr st) chunks ->
     (measure st chunks < fuel)%nat ->
-    let '(r, st', evs') := conn_read open key fuel st bsize evs in
+    let '(r, st', evs') := conn_read true open key fuel st bsize evs in
     (match r with
      | RData out => out <> [] /\ (length out <= bsize)%nat
      | RTimeout | RBlocked => True
-     | RErr _ => False end) /\
+     | RErr _ | RZero => False end) /\
     exists k, (k <= length chunks)%nat /\
       out_of r ++ plain_of st' ++ concat (skipn k chunks) = plain_of st ++ concat chunks /\
       received st' ++ datas evs' = wire (rctr st') (skipn k chunks) /\
       small (skipn k chunks) /\ no_eof evs' /\ closed st' = closed st.
   Proof.
-    induction fuel as [|f IH]; intros st bsize evs chunks Hs Hn Hb Hw Hm; [lia|].
+    induction fuel as [|f IH]; intros st bsize evs chunks Hs Hn Hb Hcl0 Hw Hm; [lia|].
     cbn [conn_read]. destruct (plain st) as [p|] eqn:Ep.
     - (* serve from the decrypted buffer *)
       destruct bsize as [|b]; [lia|].
@@ -197,10 +197,10 @@ Section Honest2.
       + (* buffer empty: drop it and go on *)
         cbn [firstn length Nat.ltb Nat.leb Nat.eqb orb andb negb skipn].
         set (st1 := mkC (received st) None (rctr st) (closed st)).
-        specialize (IH st1 (S b) evs chunks Hs Hn Hb Hw).
+        specialize (IH st1 (S b) evs chunks Hs Hn Hb Hcl0 Hw).
         assert (Hm1 : (measure st1 chunks < f)%nat) by (unfold measure in *; rewrite Ep in Hm; cbn [plain st1]; lia).
         specialize (IH Hm1).
-        destruct (conn_read open key f st1 (S b) evs) as [[r st'] evs'].
+        destruct (conn_read true open key f st1 (S b) evs) as [[r st'] evs'].
         destruct IH as (Hr & k & Hk & Hc & Hw' & Hs' & Hn' & Hcl). split; [exact Hr|].
         exists k. unfold plain_of in *. rewrite Ep. cbn [plain st1] in Hc. repeat split; auto.
       + cbn [firstn]. cbv iota.
@@ -215,6 +215,7 @@ Section Honest2.
           rewrite firstn_all2 by lia. reflexivity.
         * rewrite app_assoc, firstn_skipn. reflexivity.
     - (* fetch and decrypt the next frame *)
+      rewrite Hcl0. cbv iota zeta.
       pose proof (read_frame_conserves (S (evs_size evs)) (received st) evs) as Hc.
       pose proof (read_frame_no_eof (S (evs_size evs)) (received st) evs Hn) as He.
       destruct (read_frame (S (evs_size evs)) (received st) evs) as [[r rcv2] evs2].
@@ -225,11 +226,11 @@ Section Honest2.
           as (c & cs & -> & -> & Hrest).
         inversion Hs as [|? ? Hcl Hcs]; subst.
         rewrite (decrypt_one_frame seal open open_seal seal_len key (rctr st) c Hcl).
-        set (st1 := mkC rcv1 (Some c) ((rctr st + 1) mod m64n) (closed st)).
-        specialize (IH st1 bsize evs2 cs Hcs Hn2 Hb Hrest).
+        set (st1 := mkC rcv1 (Some c) ((rctr st + 1) mod m64n) false).
+        specialize (IH st1 bsize evs2 cs Hcs Hn2 Hb eq_refl Hrest).
         assert (Hm1 : (measure st1 cs < f)%nat) by (unfold measure in *; rewrite Ep in Hm; cbn [plain st1 length] in *; lia).
         specialize (IH Hm1).
-        destruct (conn_read open key f st1 bsize evs2) as [[r st'] evs'].
+        destruct (conn_read true open key f st1 bsize evs2) as [[r st'] evs'].
         destruct IH as (Hr & k & Hk & Hcc & Hw' & Hs' & Hn' & Hcl'). split; [exact Hr|].
         exists (S k). cbn [length skipn]. split; [lia|]. unfold plain_of in *. rewrite Ep. cbn [plain st1 concat app] in *.
         repeat split; auto.
@@ -292,7 +293,7 @@ Section Honest3.
   Qed.
 
   Definition good_result (r : rres) : Prop :=
-    match r with RData o => o <> [] | RTimeout | RBlocked => True | RErr _ => False end.
+    match r with RData o => o <> [] | RTimeout | RBlocked => True | RErr _ | RZero => False end.
 
   (** Refinement to a byte FIFO: for EVERY list of sent chunks, EVERY schedule of socket reads
       delivering their ciphertext (any segmentation, timeouts anywhere) and EVERY sequence of
@@ -300,32 +301,33 @@ Section Honest3.
       delivered, followed by what is still buffered in plaintext, followed by the chunks not
       yet decrypted, is exactly what was sent — nothing lost, duplicated or reordered. *)
   Theorem reads_refine_fifo : forall bsizes st evs chunks,
-    small chunks -> no_eof evs -> Forall (fun b => (0 < b)%nat) bsizes ->
+    small chunks -> no_eof evs -> Forall (fun b => (0 < b)%nat) bsizes -> closed st = false ->
     received st ++ datas evs = wire (rctr st) chunks ->
-    let '(rs, st', evs') := run_reads open key st bsizes evs in
+    let '(rs, st', evs') := run_reads true open key st bsizes evs in
     Forall good_result rs /\
     exists k, (k <= length chunks)%nat /\
       concat (map out_of rs) ++ plain_of st' ++ concat (skipn k chunks) = plain_of st ++ concat chunks /\
       received st' ++ datas evs' = wire (rctr st') (skipn k chunks).
   Proof.
-    induction bsizes as [|b bs IH]; intros st evs chunks Hs Hn Hb Hw; cbn [run_reads].
+    induction bsizes as [|b bs IH]; intros st evs chunks Hs Hn Hb Hcl0 Hw; cbn [run_reads].
     - split; [constructor|]. exists 0%nat. cbn. split; [lia|]. split; [reflexivity|exact Hw].
     - inversion Hb as [|? ? Hb0 Hbs]; subst.
       assert (Hfuel : (measure st chunks < 4 + length (received st) + evs_size evs)%nat).
       { unfold measure. pose proof (wire_length chunks Hs (rctr st)) as Hl. rewrite <- Hw, app_length in Hl.
         pose proof (evs_size_datas evs). destruct (plain st); lia. }
-      pose proof (conn_read_honest seal open open_seal seal_len key _ st b evs chunks Hs Hn Hb0 Hw Hfuel) as H.
-      destruct (conn_read open key (4 + length (received st) + evs_size evs) st b evs) as [[r st1] evs1].
-      destruct H as (Hr & k & Hk & Hc & Hw1 & Hs1 & Hn1 & _).
-      destruct r as [o| |c|].
-      + specialize (IH st1 evs1 (skipn k chunks) Hs1 Hn1 Hbs Hw1).
-        destruct (run_reads open key st1 bs evs1) as [[rs st2] evs2].
+      pose proof (conn_read_honest seal open open_seal seal_len key _ st b evs chunks Hs Hn Hb0 Hcl0 Hw Hfuel) as H.
+      destruct (conn_read true open key (4 + length (received st) + evs_size evs) st b evs) as [[r st1] evs1].
+      destruct H as (Hr & k & Hk & Hc & Hw1 & Hs1 & Hn1 & Hcl1). rewrite Hcl0 in Hcl1.
+      destruct r as [|o| |c|].
+      + destruct Hr.
+      + specialize (IH st1 evs1 (skipn k chunks) Hs1 Hn1 Hbs Hcl1 Hw1).
+        destruct (run_reads true open key st1 bs evs1) as [[rs st2] evs2].
         destruct IH as (Hg & k2 & Hk2 & Hc2 & Hw2). split; [constructor; [exact (proj1 Hr)|exact Hg]|].
         exists (k + k2)%nat. rewrite skipn_length in Hk2. split; [lia|].
         rewrite skipn_skipn_add in Hc2, Hw2. split; [|exact Hw2].
         cbn [map concat out_of]. rewrite <- app_assoc. rewrite Hc2. exact Hc.
-      + specialize (IH st1 evs1 (skipn k chunks) Hs1 Hn1 Hbs Hw1).
-        destruct (run_reads open key st1 bs evs1) as [[rs st2] evs2].
+      + specialize (IH st1 evs1 (skipn k chunks) Hs1 Hn1 Hbs Hcl1 Hw1).
+        destruct (run_reads true open key st1 bs evs1) as [[rs st2] evs2].
         destruct IH as (Hg & k2 & Hk2 & Hc2 & Hw2). split; [constructor; [exact I|exact Hg]|].
         exists (k + k2)%nat. rewrite skipn_length in Hk2. split; [lia|].
         rewrite skipn_skipn_add in Hc2, Hw2. split; [|exact Hw2].
@@ -348,12 +350,12 @@ Section Progress.
   (** as soon as a complete frame has arrived, a read returns its data without waiting for the
       network: no socket event is consumed *)
   Theorem read_progress : forall f st b evs c cs,
-    small (c :: cs) -> c <> [] -> plain st = None -> complete (received st) = true ->
+    small (c :: cs) -> c <> [] -> plain st = None -> closed st = false -> complete (received st) = true ->
     received st ++ datas evs = wire (rctr st) (c :: cs) ->
-    exists st', conn_read open key (S (S f)) st (S b) evs = (RData (firstn (S b) c), st', evs).
+    exists st', conn_read true open key (S (S f)) st (S b) evs = (RData (firstn (S b) c), st', evs).
   Proof.
-    intros f st b evs c cs Hs Hc Hp Hcomp Hw.
-    cbn [conn_read]. rewrite Hp.
+    intros f st b evs c cs Hs Hc Hp Hcl0 Hcomp Hw.
+    cbn [conn_read]. rewrite Hp, Hcl0. cbv iota zeta.
     pose proof (read_frame_conserves (S (evs_size evs)) (received st) evs) as Hcons.
     cbn [read_frame] in *. fold (complete (received st)) in *. rewrite Hcomp in *.
     unfold complete in Hcomp. destruct (frame_need (received st)) as [n|] eqn:En; [|discriminate].
@@ -377,7 +379,7 @@ Lemma connread_nonvacuous :
   let w := wire cc_seal key 0 chunks in
   let evs := [SockTimeout; SockData (firstn 30 w); SockData (skipn 30 w)] in
   small chunks /\ no_eof evs /\ received (init_conn 0) ++ datas evs = wire cc_seal key (rctr (init_conn 0)) chunks /\
-  fst (fst (run_reads cc_open key (init_conn 0) [3; 3; 3; 3; 3]%nat evs)) =
+  fst (fst (run_reads true cc_open key (init_conn 0) [3; 3; 3; 3; 3]%nat evs)) =
     [RTimeout; RData [1;2;3]; RData [4;5]; RData [6;7]; RBlocked].
 Proof.
   cbn zeta. split; [repeat constructor; simpl; lia|]. split; [repeat constructor; discriminate|].
